@@ -109,16 +109,19 @@ theorem appWrite_local (e : EP) (h i : Nat) (o : Obj) (d : Bytes)
 
 theorem appShutdown_local (e : EP) (h i : Nat) (o : Obj)
     (hh : e.handleObj h = some (i, o)) (hoc : e.outClosed = false) :
-    (o.finishSent = true ∧ (appShutdown e h).1 = e) ∨
+    (o.finishSent = true ∧ LocalUpd e (appShutdown e h).1 i { o with parked := false } [] []) ∨
     (o.finishSent = false ∧
-        LocalUpd e (appShutdown e h).1 i { o with finishSent := true } [.frame (.finish o.fid)] []) := by
+        LocalUpd e (appShutdown e h).1 i { o with finishSent := true, parked := false } [.frame (.finish o.fid)] []) := by
   have ho := handleObj_obj hh
   by_cases hf : o.finishSent = true
   · left
-    exact ⟨hf, by unfold appShutdown; rw [hh]; simp [hf]⟩
+    have hres : appShutdown e h = (e.modObj i (fun o => { o with parked := false }), .unit) := by
+      unfold appShutdown; rw [hh]; simp [hf]
+    rw [hres]
+    exact ⟨hf, LocalUpd.modObj e i _ o _ ho rfl⟩
   · right
     have hf' : o.finishSent = false := by simpa using hf
-    have hres : appShutdown e h = ((e.modObj i (fun o => { o with finishSent := true })).enqFrame (.finish o.fid), .unit) := by
+    have hres : appShutdown e h = ((e.modObj i (fun o => { o with finishSent := true, parked := false })).enqFrame (.finish o.fid), .unit) := by
       unfold appShutdown; rw [hh]; simp [hf']
     rw [hres]
     exact ⟨hf', LocalUpd.modEnq e i _ _ o _ ho rfl hoc⟩
